@@ -12,3 +12,36 @@ package hackpadfs
 //@ lemma vpSplit(m string, r string) := iff(VP(m + "/" + r), VP(m) && m != "." && VP(r) && r != ".")
 //@ lemma vpBasic(p string) := implies(VP(p), p != "" && !hasPrefix(p, "/") && !hasSuffix(p, "/") && !contains(p, "//"))
 //@ lemma vpDot(p string) := implies(VP(p) && hasPrefix(p, "."), p == "." || !hasPrefix(p, "./"))
+
+// ---- interfaces (assumed for foreign implementations; deterministic = results and the new
+// world are functions of the old world, the receiver and the arguments) ----
+
+//@ interface FS.Open(name string) (f File, err error)
+//@   deterministic
+//@   ensures "result" implies(err == nil, f != nil)
+//@   ensures "gate" implies(!VP(name), errIs(err, ErrInvalid))
+
+//@ interface MountFS.Mount(name string) (mountFS FS, subPath string)
+//@   deterministic
+//@   pure
+
+//@ interface MkdirFS.Mkdir(name string, perm FileMode) (err error)
+//@   deterministic
+//@   ensures "gate" implies(!VP(name), errIs(err, ErrInvalid))
+
+// ---- error translation between namespaces ----
+
+//@ spec sameErrShape(r error, e error) := tag(r) == tag(e) && opOf(r) == opOf(e) && innerErr(r) == innerErr(e)
+
+//@ func stripErrPathPrefix(err error, name string, mountSubPath string) (r error)
+//@   props C05
+//@   ensures "nil" iff(r == nil, err == nil)
+//@   ensures "other" implies(err != nil && !isPathError(err) && !isLinkError(err), r == err)
+//@   ensures "shape" implies(isPathError(err) || isLinkError(err), sameErrShape(r, err) && fresh(r))
+//@   ensures "identity" implies(isPathError(err) && name == mountSubPath, pathOf(r) == pathOf(err))
+//@   ensures "sub-path" forall(base, string, implies(isPathError(err) && VP(base) && VP(name) && mountSubPath == pjoin(base, name) &&
+//@                        VP(pathOf(err)) && under(pathOf(err), base), VP(pathOf(r)) && pjoin(base, pathOf(r)) == pathOf(err)))
+//@   ensures "mount-path" forall(mp, string, implies(isPathError(err) && VP(mp) && mp != "." && VP(mountSubPath) && name == pjoin(mp, mountSubPath) &&
+//@                        VP(pathOf(err)), pathOf(r) == pjoin(mp, pathOf(err))))
+//@   ensures "never-empty" implies(isPathError(err) && VP(name) && VP(pathOf(err)), pathOf(r) != "")
+//@   nopanic
